@@ -5,7 +5,7 @@
    (Escape.v ~ format.rs escapers / parser.rs string processing) and layout (Pretty.v ~ pretty.rs).
    The user-visible property is decided by the end-to-end real-vs-real search of vplib/props/c17.py.
    This file contains ONLY the property theorems, each closed by `exact <lemma>`. *)
-From Quiver Require Import Base Ast Simplify SimplifyProofs.
+From Quiver Require Import Base Ast Simplify SimplifyProofs Escape EscapeProofs Pretty PrettyProofs.
 
 (* ---- normalize_blocks ---------------------------------------------------------------------- *)
 (* compiler.rs:548: keep = |_| false, lift = true, group_consequences = false *)
@@ -50,3 +50,58 @@ Print Assumptions C17_format_then_compile_same_refuted.
 
 (* normalize_preserves_eval (stripping / lifting / grouping a no-op block preserves the reference meaning)
    needs the reference evaluator Lang.eval of C02 and is left to C02 (DESIGN.md §5 C02). *)
+
+(* ---- string escaping (Escape.v ~ format.rs:476/568/585/521, parser.rs:685/499/794/826/864/914) ---------- *)
+(* single-line: the parser's unescaping inverts the formatter's escaping, for every string *)
+Theorem C17_escape_roundtrip_single : forall s : list Z, unescape (escape_single s) = Some s.
+Proof. exact escape_single_roundtrip. Qed.
+Print Assumptions C17_escape_roundtrip_single.
+
+(* term position: after the escaped text the closing quote (34) is found where expected and no hole opens *)
+Theorem C17_escape_roundtrip_single_scan : forall (s rest : list Z),
+  scan_single (escape_single s ++ 34 :: rest) = ScanText s rest.
+Proof. exact escape_single_scan. Qed.
+Print Assumptions C17_escape_roundtrip_single_scan.
+
+(* multi-line: raw text between the delimiters as rendered at any margin (incl. \s protection of trailing spaces,
+   CR/TAB/backslash/quote/brace escapes, empty lines) is de-indented and decoded back to the string.
+   The model of the printer strips only the indentation of empty lines; the real printer's trim_end
+   (Unicode White_Space) and collapse_blanks are outside this theorem: they are findings F18 and F15. *)
+Theorem C17_escape_roundtrip_multiline : forall (s : list Z) (margin : nat),
+  process_multiline (render_multiline s margin) = Some s.
+Proof. exact multiline_roundtrip. Qed.
+Print Assumptions C17_escape_roundtrip_multiline.
+
+(* term position (holes recognised): the rendered text opens no hole *)
+Theorem C17_escape_roundtrip_multiline_term : forall (s : list Z) (margin : nat),
+  process_multiline_term (render_multiline s margin) = MText s.
+Proof. exact multiline_term_roundtrip. Qed.
+Print Assumptions C17_escape_roundtrip_multiline_term.
+
+(* the escape-aware scan for the closing delimiter stops exactly after the rendered text (every quote is escaped) *)
+Theorem C17_escape_multiline_raw_scan : forall (s : list Z) (margin : nat) (rest : list Z),
+  scan_multiline_raw (render_multiline s margin ++ [34; 34; 34] ++ rest) = Some (render_multiline s margin, rest).
+Proof. exact multiline_raw_scan. Qed.
+Print Assumptions C17_escape_multiline_raw_scan.
+
+(* ---- layout (Pretty.v ~ pretty.rs) -------------------------------------------------------------------- *)
+(* print is total: the explicit fuel `enough_fuel d` suffices for every doc and width *)
+Theorem C17_print_total : forall (d : doc) (width : nat), exists out, Pretty.print d width = Some out.
+Proof. exact print_total. Qed.
+Print Assumptions C17_print_total.
+
+(* layout_content_invariant: for every width the printer emits exactly the Text atoms of the doc, in order,
+   each IfBreak resolved by the mode of its enclosing group (`content`, PrettyProofs.v: a group with
+   should_break = true is Break, any other group may be Flat or Break) - so width can only change
+   line breaks, indentation and IfBreak decorations. Docs without LineSuffix (whose content is deferred to the
+   end of the line, which does depend on where lines break): *)
+Theorem C17_layout_content_invariant : forall (d : doc) (width : nat) (ts : list token),
+  suffix_free d = true -> layout d width = Some ts -> content Break d (texts ts).
+Proof. exact layout_content_invariant. Qed.
+Print Assumptions C17_layout_content_invariant.
+
+(* all docs (LineSuffix = trailing comments included): the same atoms, up to the deferral of suffix content *)
+Theorem C17_layout_content_perm : forall (d : doc) (width : nat) (ts : list token),
+  layout d width = Some ts -> exists l, content_all Break d l /\ Permutation.Permutation (texts ts) l.
+Proof. exact layout_content_perm. Qed.
+Print Assumptions C17_layout_content_perm.
